@@ -44,7 +44,9 @@ func c13ScalarWire(s *verifhook.Ed448Scalar, err error) vf.Wire {
 
 func init() {
 	RegisterOracle("ed448.clamp", func(a []vf.Wire) vf.Wire {
-		return c13Guard(func() vf.Wire { return c13ScalarWire(verifhook.Ed448NewScalar().SetBytesWithClamping(argN(a, 0).Bytes)) })
+		return c13Guard(func() vf.Wire {
+			return c13ScalarWire(verifhook.Ed448NewScalar().SetBytesWithClamping(argN(a, 0).Bytes))
+		})
 	})
 	RegisterOracle("ed448.uniform", func(a []vf.Wire) vf.Wire {
 		return c13Guard(func() vf.Wire { return c13ScalarWire(verifhook.Ed448NewScalar().SetUniformBytes(argN(a, 0).Bytes)) })
